@@ -127,7 +127,14 @@ class SimpleThrottleHandler(AbstractThrottleHandler):
             self.non_throttle_responses = 0
             self.throttle_responses = 0
             self.updated_at = now
-        allowed: bool = current_percent_throttles <= self.deny_request_at
+        # Decide on the exact share: percent_throttles is rounded to two decimals (for the log),
+        # which would allow 1.0033 % at a limit of 1 % and deny 1.0050 % at a limit of 1.006 %
+        total_smsc_responses: int = _non_throttle_responses + _throttle_responses
+        allowed: bool = (
+            total_smsc_responses < self.sample_size
+            or total_smsc_responses == 0
+            or _throttle_responses * 100 <= self.deny_request_at * total_smsc_responses
+        )
         log_level: int = DEBUG if allowed else WARNING
         if self.logger.isEnabledFor(log_level):
             self.logger.log(log_level, 'Throttle handler result:',
